@@ -7,6 +7,7 @@ from collmodel import coll_oracle, Vec, install, load, heap_get
 from orderings import weak_orderings
 from c10 import mk_oracle
 import c07
+import statemodel
 
 EXPLANATION = (
     "K6 with exact float arithmetic on ParticleVelocitiesUpdate::execute for two particles in two dimensions, stored "
@@ -46,32 +47,21 @@ def r1_velocity_update(ctx):
         c1, c2 = 2.0, 1.5
         me = Sym("self", {fi["weight"]: 0.9, fi["c_1"]: c1, fi["c_2"]: c2, fi["v_max"]: vmax})
 
-        def getv(interp, env, f, args):
-            g = (f.get("gargs") or [""])[0]
-            return w if g.startswith(PSO + "InertiaWeight<") else TOP
-
-        def bv(interp, env, f, args):
-            g = (f.get("gargs") or [""])[0]
-            if g.startswith(PSO + "ParticleVelocities<"):
-                return Vec("vs", borrowed=True)
-            if g.startswith(PSO + "BestParticles<"):
-                return Vec("xps", borrowed=True)
-            if g.startswith(PSO + "BestParticle<"):
-                return some(ind_vec("g", "xg"))
-            return TOP
+        # the swarm's state types are cells of the typed store; the verdict is read off the heap / cells afterwards
+        store = statemodel.Store(F, levels=1, auto=statemodel.by_prefix(F, {
+            PSO + "InertiaWeight": w, PSO + "ParticleVelocities": Vec("vs"), PSO + "BestParticles": Vec("xps"), PSO + "BestParticle": some(ind_vec("g", "xg"))}))
         table = {"mahf::state::State::populations_mut": Sym("populations"), "mahf::state::State::populations": Sym("populations"), "mahf::state::State::random_mut": Sym("rng"),
-                 "mahf::state::common::Populations::current_mut": Vec("cur", borrowed=True), "rand::rng::Rng::gen": r,
-                 "mahf::state::registry::StateRegistry::get_value": getv, "mahf::state::registry::StateRegistry::borrow_value_mut": bv,
-                 "mahf::state::registry::StateRegistry::borrow_value": bv, "mahf::state::registry::StateRegistry::try_borrow_value_mut": lambda i, e, f, a: ok(bv(i, e, f, a)),
-                 "mahf::state::registry::StateRegistry::try_borrow_value": lambda i, e, f, a: ok(bv(i, e, f, a))}
+                 "mahf::state::common::Populations::current_mut": Vec("cur", borrowed=True), "rand::rng::Rng::gen": r}
         heap = {"x0": tuple(xs0[0]), "x1": tuple(xs0[1]), "v0": tuple(vs0[0]), "v1": tuple(vs0[1]), "xp0": tuple(xps[0]), "xp1": tuple(xps[1]), "xg": tuple(xg),
                 "cur": (ind_vec("p0", "x0"), ind_vec("p1", "x1")), "vs": (Vec("v0"), Vec("v1")), "xps": (ind_vec("b0", "xp0"), ind_vec("b1", "xp1"))}
         if sizes == "vs-short":
             heap["vs"] = (Vec("v0"),)
         if sizes == "xps-short":
             heap["xps"] = (ind_vec("b0", "xp0"),)
-        it = install(Interp(fn.body, chain(mk_oracle(table), coll_oracle, std_oracle), [me, Sym("problem"), Sym("state")], facts=F, inline=c07.INLINE, max_visits=12, max_paths=200))
+        it = install(Interp(fn.body, chain(mk_oracle(table), statemodel.well_known(Sym("populations"), Sym("rng")), store, coll_oracle, std_oracle), [me, Sym("problem"), Sym("state")], facts=F,
+                            inline=lambda k: c07.INLINE(k) or statemodel.inline(k), max_visits=12, max_paths=200))
         it.init_state = {"heap": heap, "next_vec": 0}
+        store.install(it)
         n += 1
         for p in it.run():
             ctxs = (w, vmax, r, sizes)
@@ -134,19 +124,20 @@ def r3_best_memories(ctx):
     n = 0
     for size in range(0, 3):
         for order in (weak_orderings(2 * size) if size else [()]):
-            def bv(interp, env, f, args):
-                return Vec("bests", borrowed=True) if (f.get("gargs") or [""])[0].startswith(PSO + "BestParticles<") else TOP
-            table = {"mahf::state::State::populations": Sym("populations"), "mahf::state::common::Populations::current": Vec("cur", borrowed=True),
-                     "mahf::state::registry::StateRegistry::borrow_value_mut": bv, "mahf::state::registry::StateRegistry::try_borrow_value_mut": lambda i, e, f, a: ok(bv(i, e, f, a))}
-            it = install(Interp(fn.body, chain(mk_oracle(table), coll_oracle, std_oracle), [Sym("self"), Sym("problem"), Sym("state")], facts=F, inline=c07.INLINE, max_visits=12))
+            store = statemodel.Store(F, levels=1, auto=statemodel.by_prefix(F, {PSO + "BestParticles": Vec("bests")}))
+            table = {"mahf::state::State::populations": Sym("populations"), "mahf::state::common::Populations::current": Vec("cur", borrowed=True)}
+            it = install(Interp(fn.body, chain(mk_oracle(table), statemodel.well_known(Sym("populations"), Sym("rng")), store, coll_oracle, std_oracle), [Sym("self"), Sym("problem"), Sym("state")], facts=F,
+                                inline=lambda k: c07.INLINE(k) or statemodel.inline(k), max_visits=12))
             it.init_state = {"rank": {"o:%d" % i: r for i, r in enumerate(order)}, "next_vec": 0,
                              "heap": {"bests": tuple(c07.ind(i) for i in range(size)), "cur": tuple(c07.ind(size + i) for i in range(size))}}
+            store.install(it)
             n += 1
             for p in it.run():
                 if p.end != "return":
                     bad.append((list(order), "does not return (%s)" % p.end))
                     continue
-                got = [c07.otag(x) for x in p.mstate["heap"]["bests"]]
+                bv_ = statemodel.payload_of(store, p, PSO + "BestParticles", Vec("bests"))
+                got = [c07.otag(x) for x in p.mstate["heap"].get(getattr(bv_, "vid", None), ())]
                 want = ["o:%d" % (size + i) if order[size + i] < order[i] else "o:%d" % i for i in range(size)]
                 if got != want:
                     bad.append((list(order), "memories become %s, expected %s (replace iff the particle is strictly better than its own memory)" % (got, want)))
@@ -158,24 +149,22 @@ def r3_best_memories(ctx):
         for size in range(0, 3):
             k = size + (1 if has_best else 0)
             for order in (weak_orderings(k) if k else [()]):
-                def bv(interp, env, f, args):
-                    return Ref(home, [], frame="root") if (f.get("gargs") or [""])[0].startswith(PSO + "BestParticle<") else TOP
-                table = {"mahf::state::State::populations": Sym("populations"), "mahf::state::common::Populations::current": Vec("cur", borrowed=True),
-                         "mahf::state::registry::StateRegistry::borrow_value_mut": bv, "mahf::state::registry::StateRegistry::try_borrow_value_mut": lambda i, e, f, a: ok(bv(i, e, f, a))}
-                it = install(Interp(fn.body, chain(mk_oracle(table), coll_oracle, std_oracle), [Sym("self"), Sym("problem"), Sym("state")], facts=F, inline=c07.INLINE, max_visits=12))
                 # the framework-wide best-so-far may stem from a phase before the swarm existed: it is not a swarm member
                 foreign = Agg("adt", c07.IND, "Individual", [Sym("s:foreign"), some(Sym("o:foreign"))])
-                table["mahf::state::State::best_individual"] = some(foreign)
-                it = install(Interp(fn.body, chain(mk_oracle(table), coll_oracle, std_oracle), [Sym("self"), Sym("problem"), Sym("state")], facts=F, inline=c07.INLINE, max_visits=12))
-                it.extra_env = {home: some(c07.ind(size)) if has_best else NONE}
+                init_best = some(c07.ind(size)) if has_best else NONE
+                store = statemodel.Store(F, levels=1, auto=statemodel.by_prefix(F, {PSO + "BestParticle": init_best, "mahf::state::common::BestIndividual": some(foreign)}))
+                table = {"mahf::state::State::populations": Sym("populations"), "mahf::state::common::Populations::current": Vec("cur", borrowed=True)}
+                it = install(Interp(fn.body, chain(mk_oracle(table), statemodel.well_known(Sym("populations"), Sym("rng")), store, coll_oracle, std_oracle), [Sym("self"), Sym("problem"), Sym("state")], facts=F,
+                                    inline=lambda k: c07.INLINE(k) or statemodel.inline(k), max_visits=12))
                 rk = {"o:%d" % i: r for i, r in enumerate(order)}
                 rk["o:foreign"] = -1
                 it.init_state = {"rank": rk, "next_vec": 0, "heap": {"cur": tuple(c07.ind(i) for i in range(size))}}
+                store.install(it)
                 for p in it.run():
                     if p.end != "return":
                         bad.append((has_best, list(order), "does not return (%s)" % p.end))
                         continue
-                    after = p.env.get(home)
+                    after = statemodel.payload_of(store, p, PSO + "BestParticle", init_best)
                     tag = c07.otag(after.fields[0]) if isinstance(after, Agg) and after.variant == "Some" else None
                     if size == 0:
                         want = {("o:%d" % size) if has_best else None}
@@ -270,19 +259,18 @@ def r4_initialisers(ctx):
     home = 10000
     for size in range(0, 3):
         for stale in range(0, 3):
-            def bv(interp, env, f, args):
-                return Ref(home, [], frame="root") if (f.get("gargs") or [""])[0].startswith(PSO + "BestParticles<") else TOP
-            table = {"mahf::state::State::populations": Sym("populations"), "mahf::state::common::Populations::current": Vec("cur", borrowed=True),
-                     "mahf::state::registry::StateRegistry::borrow_value_mut": bv, "mahf::state::registry::StateRegistry::try_borrow_value_mut": lambda i, e, f, a: ok(bv(i, e, f, a))}
-            it = install(Interp(fn.body, chain(mk_oracle(table), coll_oracle, std_oracle), [Sym("self"), Sym("problem"), Sym("state")], facts=F, inline=c07.INLINE, max_visits=12))
-            it.extra_env = {home: Vec("bests")}
+            store = statemodel.Store(F, levels=1, auto=statemodel.by_prefix(F, {PSO + "BestParticles": Vec("bests")}))
+            table = {"mahf::state::State::populations": Sym("populations"), "mahf::state::common::Populations::current": Vec("cur", borrowed=True)}
+            it = install(Interp(fn.body, chain(mk_oracle(table), statemodel.well_known(Sym("populations"), Sym("rng")), store, coll_oracle, std_oracle), [Sym("self"), Sym("problem"), Sym("state")], facts=F,
+                                inline=lambda k: c07.INLINE(k) or statemodel.inline(k), max_visits=12))
             it.init_state = {"next_vec": 0, "heap": {"bests": tuple(c07.ind("old%d" % i) for i in range(stale)), "cur": tuple(c07.ind(i) for i in range(size))}}
+            store.install(it)
             n += 1
             for p in it.run():
                 if p.end != "return" or not (isinstance(p.ret, Agg) and p.ret.variant == "Ok"):
                     bad.append((size, stale, "does not complete (%s)" % p.end))
                     continue
-                v = p.env.get(home)
+                v = statemodel.payload_of(store, p, PSO + "BestParticles", Vec("bests"))
                 got = [c07.otag(x) for x in p.mstate["heap"].get(v.vid, ())] if isinstance(v, Vec) else None
                 want = ["o:%d" % i for i in range(size)]
                 if got != want:
@@ -296,8 +284,7 @@ def r4_initialisers(ctx):
         for dim in range(0, 3):
             for stale in (0, 2):
                 vmax = 2.5
-                def bv(interp, env, f, args):
-                    return Ref(home, [], frame="root") if (f.get("gargs") or [""])[0].startswith(PSO + "ParticleVelocities<") else TOP
+                store = statemodel.Store(F, levels=1, auto=statemodel.by_prefix(F, {PSO + "ParticleVelocities": Vec("vs")}))
 
                 def draw(interp, env, f, args):
                     r = args[1] if len(args) > 1 else None
@@ -307,17 +294,17 @@ def r4_initialisers(ctx):
                     interp.mstate["ranges"] = interp.mstate.get("ranges", ()) + (rng,)
                     return Sym("draw:%d" % k)
                 table = {"mahf::state::State::populations": Sym("populations"), "mahf::state::common::Populations::current": Vec("cur", borrowed=True),
-                         "mahf::state::State::random_mut": Sym("rng"), "rand::rng::Rng::gen_range": draw, "mahf::problems::VectorProblem::dimension": dim,
-                         "mahf::state::registry::StateRegistry::borrow_value_mut": bv, "mahf::state::registry::StateRegistry::try_borrow_value_mut": lambda i, e, f, a: ok(bv(i, e, f, a))}
-                it = install(Interp(fn.body, chain(mk_oracle(table), coll_oracle, std_oracle), [Sym("self", {vi: vmax}), Sym("problem"), Sym("state")], facts=F, inline=c07.INLINE, max_visits=12))
-                it.extra_env = {home: Vec("vs")}
+                         "mahf::state::State::random_mut": Sym("rng"), "rand::rng::Rng::gen_range": draw, "mahf::problems::VectorProblem::dimension": dim}
+                it = install(Interp(fn.body, chain(mk_oracle(table), statemodel.well_known(Sym("populations"), Sym("rng")), store, coll_oracle, std_oracle), [Sym("self", {vi: vmax}), Sym("problem"), Sym("state")], facts=F,
+                                    inline=lambda k: c07.INLINE(k) or statemodel.inline(k), max_visits=12))
                 it.init_state = {"next_vec": 0, "heap": {"vs": tuple(Vec("ov%d" % i) for i in range(stale)), "ov0": (9.0,) * dim, "ov1": (9.0,) * dim, "cur": tuple(c07.ind(i) for i in range(size))}}
+                store.install(it)
                 n += 1
                 for p in it.run():
                     if p.end != "return" or not (isinstance(p.ret, Agg) and p.ret.variant == "Ok"):
                         bad.append((size, dim, stale, "does not complete (%s)" % p.end))
                         continue
-                    v = p.env.get(home)
+                    v = statemodel.payload_of(store, p, PSO + "ParticleVelocities", Vec("vs"))
                     h = p.mstate["heap"]
                     rows = [list(h.get(r.vid, ())) if isinstance(r, Vec) else None for r in h.get(v.vid, ())] if isinstance(v, Vec) else None
                     shape_ok = rows is not None and len(rows) == size and all(r is not None and len(r) == dim for r in rows)
